@@ -78,7 +78,7 @@ def check(model, rep):
         import copy
         from ..engine import peval, tv
         f = model.func(MOD, name)
-        flat = peval.propagate_copies(peval.flatten_function(tv.toplevel_funcs(f.module.tree), f.node, depth=2, impure=True))
+        flat = peval.propagate_copies(peval.flatten_function(tv.toplevel_funcs(f.module.tree), peval.propagate_copies(f.node), depth=2, impure=True))
         ast.fix_missing_locations(flat)
         g = copy.copy(f)
         g.node = flat
@@ -337,6 +337,29 @@ def check(model, rep):
     rep.count('R20.4 integer conversions of array elements outside dispa', n_conv)
 
     # ---------------------------------------------------------------- R20.5
+    # ---------------------------------------------------------------- R20.6
+    rep.rule('R20.6', 'printTFlist (lists of transforms / wrenches): every integer conversion round(x) of an entry is dominated by abs(x) >= 9999 '
+                      '(false for NaN) and by not math.isinf(x): non-finite entries are rendered, not converted')
+    ptf = flat_func('printTFlist')
+    found6 = {}
+
+    class G6(FactDomain):
+        def user_call(s, call, facts, user):
+            if isinstance(call.func, ast.Name) and call.func.id == 'round' and len(call.args) == 1 and isinstance(call.args[0], ast.Subscript):
+                a = src(call.args[0])
+                g1 = FactDomain.has(facts, False, 'math.isinf(%s)' % a) or FactDomain.has(facts, True, 'math.isfinite(%s)' % a) \
+                    or FactDomain.has(facts, True, 'np.isfinite(%s)' % a)
+                g2 = any(f[0] is True and f[1].replace(' ', '') == 'abs(%s)>=9999' % a for f in facts)
+                k6 = 'round(...) at line %d' % call.lineno       # unrolled copies of one statement count once
+                found6[k6] = (found6.get(k6, (True, 0, True))[0] and g1, call.lineno, found6.get(k6, (True, 0, True))[2] and g2)
+            return user
+    Flow(G6()).run(ptf.body(), {((frozenset(), None), frozenset())})
+    for k_, (ok_inf, line_, ok_nan) in sorted(found6.items()):
+        rep.ob('R20.6', ptf, k_ + ' not applied to an infinite entry', ok_inf,
+               'integer conversion of an entry that may be infinite: disp of a list of transforms / wrenches raises OverflowError', line=line_)
+        rep.ob('R20.6', ptf, k_ + ' not applied to a NaN entry', ok_nan,
+               'integer conversion of an entry that is not known to be >= 9999 in magnitude: a NaN entry makes disp raise ValueError instead of rendering nan', line=line_)
+    rep.floor('R20.6', 'integer conversions of entries in printTFlist', len(found6), 1)
     rep.rule('R20.5', 'builtin round() is applied to a raw array element only if every scalar type of the stated dtypes (float / int / bool) '
                       'implements __round__ in the installed NumPy, or a conversion / capability test comes first')
     from ..engine import npstub
